@@ -31,7 +31,8 @@ harness in a `schema` line, taken from the real descriptors through protoreflect
                  the harness really called, mapped by `WCtor.opt`)
        outcome as for `set`; a panic ends the sequence
        ropt 'X'<name>: a resource option that is not a mask (clock, equivalence, rng, id interceptor)
-  race <ty> <ropts> <stored> <step> <steps>|_       -> <outcome> => <stored-after>
+  race <ty> <ropts> <stored> <step> <steps>|_       -> <outcome> => <stored-after>   (a rival step prefixed '>' is
+                                                       issued after Merge: not reached when Merge panics)
        the write <step> with the writes <steps> of others committed between its read and its re-check
        (GetAndUpdate); outcome := err:<code> | aborted | panic | <stored'> <src'>
   rvalidate <ty> <mask>                             -> true|false          (ResponseFilter.Validate)
@@ -104,6 +105,11 @@ def showRaceOut : RaceOut → String
   | .aborted => "aborted"
   | .panic => "panic"
   | .ok st src => showMsg st ++ " " ++ showMsg src
+
+/-- A rival step; the prefix `>` marks a write issued AFTER `Merge` (InterceptAfter, before the lock). -/
+def parseRivalStep (s : String) : Option (Bool × Step) :=
+  if s.startsWith ">" then (parseStep (s.drop 1).toString).map (fun st => (true, st))
+  else (parseStep s).map (fun st => (false, st))
 
 def Step.rival (resW : Option (List Path)) (s : Step) : Rival :=
   ⟨(computeWriteConfig s.opts).fieldUpdater resW, s.src⟩
@@ -183,12 +189,14 @@ def handleS (S : Schema) (toks : List String) : Schema × String :=
     | _, _, _, _ => bad
   | ["race", ty, ro, d, outer, rivals] =>
     match ty.toNat?, parseList parseROpt ro, parseMessage d, parseStep outer,
-        (if rivals = "_" then some [] else (rivals.splitOn "|").mapM parseStep) with
+        (if rivals = "_" then some [] else (rivals.splitOn "|").mapM parseRivalStep) with
     | some ty, some ro, some d, some outer, some rivals =>
       match resourceWritable S ty ro with
       | none => (S, "config-panic")
       | some resW =>
-        let r := raceSet protoEqual S ty (outer.rival resW).u d outer.src (rivals.map (Step.rival resW))
+        let pre := (rivals.filter (fun r => !r.1)).map (fun r => Step.rival resW r.2)
+        let post := (rivals.filter (fun r => r.1)).map (fun r => Step.rival resW r.2)
+        let r := raceSetPhased protoEqual S ty (outer.rival resW).u d outer.src pre post
         (S, showRaceOut r.out ++ " => " ++ showMsg r.stored)
     | _, _, _, _, _ => bad
   | ["rvalidate", ty, m] =>
